@@ -26,14 +26,18 @@ no verdict for values that hold functions / methods / references (the
 statement does not say when two functions are the same value; for them only
 the laws are checked).
 """
+import enum
+import fractions
 import functools
 import inspect
 import itertools
+import numbers
 
 import pyglove as pg
 from pyvc.bounded import Recorder, rng
 
 _PARTS = {
+    'IMP': "import functools, fractions\n",
     '_f': "_f = lambda *n: pg.members([(k, pg.typing.Any()) for k in n])\n",
     'A': "@_f('x')\nclass A(pg.Object): pass\n",
     'A2': "class A2(A): pass\n",
@@ -51,6 +55,19 @@ _PARTS = {
            "def g_b(v):\n  'Scales v (other doc).'\n  return v * 100\n"
            "def g_k1(v, k=1): return v + k\ndef g_k2(v, k=2): return v + k\n"
            "def _mkc(n): return lambda v: v + n\nc_1, c_2 = _mkc(1), _mkc(2)\n"),
+    # callable objects: a partial that is shared by name, instances of a class
+    # with __call__ (compared by identity / by value).
+    'PT': "p_1 = functools.partial(g_k1, k=2)\n",
+    'CBK': ("class CB:\n  def __init__(self, k): self.k = k\n  def __call__(self, v): return v + self.k\n"
+            "class CE(CB):\n  def __eq__(self, o): return type(o) is CE and o.k == self.k\n"
+            "  def __hash__(self): return hash(('CE', self.k))\n"),
+    # opaque (non-symbolic, non-callable) leaves: a value class with == / hash /
+    # < (V), one with == but without hash and < (U), a class compared by
+    # identity (P), an enum.
+    'DC': ("import dataclasses\n@dataclasses.dataclass(frozen=True, order=True)\nclass V:\n  k: int\n"
+           "@dataclasses.dataclass\nclass U:\n  k: int\n"),
+    'PL': "class P: pass\no_1 = P()\n",
+    'EN': "import enum\nclass E(enum.Enum):\n  a = 1\n  b = 2\n",
     # methods: bound (same / other receiver), unbound, static, class methods.
     'H': ("class H:\n  def m1(self): return 'one'\n  def m2(self): return 'two'\n"
           "  def m3(self, v): return v\n  @staticmethod\n  def s1(): return 1\n"
@@ -61,7 +78,7 @@ _PARTS = {
     'W': ("@pg.symbolize\nclass W:\n  def __init__(self, x, y=0): self.x = x\n"
           "class _K:\n  def __init__(self, x, y=0): self.x = x\nWE = pg.wrap(_K, eq=True)\n"),
     # referenced values (pg.Ref compares its target by identity).
-    'R': "r_1, r_2, r_3 = A(1), A(1), A(2)\n",
+    'R': "r_1, r_2, r_3 = A(1), A(1), A(2)\nr_d, r_l = pg.Dict(k=1), pg.List([1])\n",
     # a class with typed fields (mutation driver).
     'T': ("@pg.members([('n', pg.typing.Int(default=0)), ('tags', pg.typing.List(pg.typing.Int(), default=[])),\n"
           "  ('sub', pg.typing.Dict([('u', pg.typing.Int(default=1)), ('w', pg.typing.Any(default=None))]))])\n"
@@ -71,10 +88,13 @@ PRE = 'import pyglove as pg\n' + ''.join(_PARTS.values())
 
 # part -> names whose use in an expression needs the part.
 _PART_NAMES = {
+    'IMP': ('functools', 'fractions', 'p_1'), 'PT': ('p_1',), 'CBK': ('CB', 'CE'),
+    'DC': ('V', 'U'), 'PL': ('P', 'o_1'), 'EN': ('E',),
     'A': ('A', 'A2', 'B', 'r_1', 'r_2', 'r_3'), 'A2': ('A2',), 'B': ('B',), 'C': ('C',),
     'N': ('N',), 'L': ('L1', 'L2'), 'PD': ('PD',),
-    'FN': ('f_add1', 'f_add2', 'f_mul', 'g_a', 'g_b', 'g_k1', 'g_k2', 'c_1', 'c_2'),
-    'H': ('H', 'h1', 'h2'), 'F': ('F',), 'W': ('W', 'WE'), 'R': ('r_1', 'r_2', 'r_3'),
+    'FN': ('f_add1', 'f_add2', 'f_mul', 'g_a', 'g_b', 'g_k1', 'g_k2', 'c_1', 'c_2', 'p_1'),
+    'H': ('H', 'h1', 'h2'), 'F': ('F',), 'W': ('W', 'WE', '_K'),
+    'R': ('r_1', 'r_2', 'r_3', 'r_d', 'r_l'),
     'T': ('T',),
 }
 _NEEDS_F = ('A', 'A2', 'B', 'C', 'N', 'L')
@@ -155,6 +175,53 @@ POOL = [
     "pg.geno.CustomDecisionPoint(hyper_type='t')",
     "pg.geno.CustomDecisionPoint(hyper_type='u')",
     '-0.0',
+    # -- callable objects (functools.partial: shared by name / built anew with
+    #    the same / other function, positional and keyword arguments; instances
+    #    with __call__ compared by identity (CB) and by value (CE)) --------------
+    'p_1', 'functools.partial(g_k1, k=2)', 'functools.partial(g_k1, k=3)',
+    'functools.partial(g_k2, k=2)', 'functools.partial(g_k1, 1)',
+    'functools.partial(h1.m3, 1)', 'CB(1)', 'CB(2)', 'CE(1)', 'CE(2)',
+    'A(p_1)', 'A(functools.partial(g_k1, k=2))', 'A(functools.partial(g_k1, k=3))',
+    '[functools.partial(g_k1, k=2), 0]', '[functools.partial(g_k1, k=2), 1]',
+    'pg.Dict(f=functools.partial(g_k1, k=2))', 'A(CB(1))', 'A(CE(1))',
+    'C(CE(1), 0)', 'C(CE(1), 1)',
+    # -- opaque leaves: every other value that is neither symbolic nor one of
+    #    the documented primitive kinds ends in the same fall-back branches of
+    #    eq / lt / hash.  By what their own type offers: ==, hash and < (V);
+    #    == without hash and < (U); == and hash without < (range, enum members,
+    #    Ellipsis); identity only (P, _K).  (== and < without hash: bytearray below.)
+    'V(1)', 'V(2)', 'U(1)', 'U(2)', 'range(3)', 'range(4)', 'E.a', 'E.b',
+    'Ellipsis', 'o_1', 'P()', '_K(1)',
+    'A(V(1))', 'A(V(2))', 'A(U(1))', 'A(U(2))', 'A(P())',
+    'A(o_1)', 'A(E.a)', '[U(1), 0]', '[U(1), 1]',
+    '[V(1), 1]', "{'a': U(1)}", 'pg.Dict(a=V(1))', 'C(V(1), 0)', 'C(V(1), 1)',
+    '(V(1),)', '(U(1),)',
+    # -- primitive-like leaves: values of types outside bool / int / float / str
+    #    whose own == reaches across types (Fraction(2, 1) == 2, pg.KeyPath
+    #    equals its string form, bytes == bytearray) and which have a < of
+    #    their own.  (complex is left out: it is both of this kind and unordered.)
+    'fractions.Fraction(2, 1)', 'fractions.Fraction(1, 2)', 'fractions.Fraction(5, 2)',
+    "pg.KeyPath.parse('a.b')", "pg.KeyPath.parse('x')", "'a.b'",
+    'bytes([97])', 'bytes([98])', 'bytearray([97])', 'bytearray([98])',
+    'A(fractions.Fraction(2, 1))', 'A(fractions.Fraction(1, 2))', '[fractions.Fraction(2, 1)]',
+    'A(bytes([97]))', 'A(bytearray([97]))', "{'a': bytearray([97])}",
+    # -- typed missing values (what a partial value holds for a missing field).
+    'pg.typing.MissingValue(pg.typing.Int())', 'pg.typing.MissingValue(pg.typing.Str())',
+    # -- values with a Python-unhashable leaf below every kind of symbolic
+    #    parent (object field, second field, defaulted field, nested object,
+    #    symbolic list / dict, plain tuple, factory-made classes): they have no
+    #    hash; what remains is that pg.hash, sym_hash and hash() agree on that.
+    'A({1})', 'A({2})', 'C(1, {1})', 'C({1}, 1)', 'B(1, {1})', 'A(({1},))',
+    'A((A({1}),))', 'A(A({1}))', 'A([{1}])', "A({'k': {1}})", 'F({1})', 'W({1})',
+    'WE({1})', 'WE({2})', 'pg.Dict(a={1})', 'pg.List([{1}])', 'A((U(1),))',
+    '(A({1}),)', 'N({1})',
+    # -- referenced values themselves, next to the references to them (objects,
+    #    a symbolic dict, a symbolic list as targets; below plain containers:
+    #    a symbolic container would adopt the shared target).
+    'r_1', 'r_2', 'r_3', 'r_d', 'r_l', 'pg.Ref(r_d)', 'pg.Ref(r_l)', '[r_1, 0]',
+    '[r_1, 1]', '[r_2, 0]', "{'a': r_1}", "{'a': pg.Ref(r_1)}", '(r_1,)',
+    '(pg.Ref(r_1),)', '[r_d]', '[pg.Ref(r_d)]', '[r_l]', '[pg.Ref(r_l)]',
+    'pg.Dict(k=1)', 'pg.Dict(a=pg.Ref(r_1))', 'pg.List([pg.Ref(r_d)])',
 ]
 
 QUICK_SKIP = set()   # the whole pool is cheap enough for the quick tier.
@@ -218,7 +285,11 @@ _MODEL_NS = dict(
 # Functions and methods are plain Python: the model holds the real ones, and
 # `_norm` refuses them (the statement does not say when two functions denote
 # the same value), so pairs with such a value get no same-value verdict.
-exec(_PARTS['FN'] + _PARTS['H'], _MODEL_NS)  # pylint: disable=exec-used
+exec(_PARTS['IMP'] + _PARTS['FN'] + _PARTS['H'] + _PARTS['PT'] + _PARTS['CBK']  # pylint: disable=exec-used
+     + _PARTS['DC'] + _PARTS['PL'] + _PARTS['EN'], _MODEL_NS)
+# the referenced values (the model of a shared value is a value).
+_MODEL_NS.update(r_1=_MODEL_NS['A'](1), r_2=_MODEL_NS['A'](1), r_3=_MODEL_NS['A'](2),
+                 r_d={'k': 1}, r_l=[1])
 
 
 def _norm(v):
@@ -227,6 +298,17 @@ def _norm(v):
     return ('M',)
   if v is None or isinstance(v, (bool, int, float, str)):
     return v        # Python number equality: 1 == True == 1.0.
+  # opaque leaves whose own type defines equality by value (Python semantics:
+  # 1 == Fraction(1), bytearray(b'a') == b'a'); leaves that
+  # are compared by identity (P, _K), callables and pg.KeyPath get no verdict.
+  if isinstance(v, (fractions.Fraction, bytes, range, enum.Enum, type(Ellipsis))):
+    return v
+  if isinstance(v, bytearray):
+    return bytes(v)
+  if isinstance(v, _MODEL_NS['V']):
+    return ('V', v.k)
+  if isinstance(v, _MODEL_NS['U']):
+    return ('U', v.k)
   if isinstance(v, _MObj):
     return ('O', v.name, tuple((k, _norm(x)) for k, x in v.items))
   if isinstance(v, list):
@@ -256,6 +338,15 @@ def _try_norm(expr):
 # Labels (input classes).
 # ---------------------------------------------------------------------------
 
+def _orderable(v):
+  """True if the leaf's own type orders its values (probe of Python's <, not of pyglove)."""
+  try:
+    v < v  # pylint: disable=pointless-statement,comparison-with-itself
+    return True
+  except TypeError:
+    return False
+
+
 def _kind(v):
   if isinstance(v, type(pg.MISSING_VALUE)):
     return 'missing'
@@ -266,23 +357,31 @@ def _kind(v):
                ((set, frozenset), 'set')):
     if isinstance(v, t):
       return n
-  if (inspect.isfunction(v) or inspect.ismethod(v) or inspect.isbuiltin(v)
-      or inspect.isclass(v)):
-    return 'callable'
   if isinstance(v, pg.Ref):
     return 'ref'
   if isinstance(v, pg.geno.CustomDecisionPoint):
     return 'custom'
   if isinstance(v, pg.Object):
     return 'obj'
-  return type(v).__name__
+  if isinstance(v, pg.Symbolic):
+    return type(v).__name__
+  # functions, methods, builtins, classes, functools.partial, instances with __call__.
+  if callable(v):
+    return 'callable'
+  if isinstance(v, (numbers.Number, pg.KeyPath, bytes, bytearray)):
+    return 'primitive-like'
+  return 'ordered-opaque' if _orderable(v) else 'unordered-opaque'
 
 
 # Leaf kinds that eq / lt / hash treat by a branch of their own.  A defect of
 # such a branch shows at top level and below any container, so pairs that hold
 # such a leaf at aligned positions are labelled by the leaf pair, not by the
-# containers around it (one defect, one id).
-SPECIAL_KINDS = ('callable', 'set', 'ref', 'custom')
+# containers around it (one defect, one id).  The last three are the leaves
+# that end in the fall-back branch (Python's own ==, <, hash of the leaf): the
+# ones Python identifies with a primitive of another kind, the ones whose type
+# has a < of its own and the ones whose type has none.
+SPECIAL_KINDS = ('callable', 'set', 'ref', 'custom', 'primitive-like',
+                 'ordered-opaque', 'unordered-opaque')
 
 
 def _children(v):
@@ -312,73 +411,98 @@ def _special_kinds(v, depth=0):
   return out
 
 
-def _leaf_label(a, b, depth=0):
-  """'<special kind(s)>-leaves' of the first aligned pair with a special leaf, or None."""
+# Structural input classes of a pair (found at aligned positions), and the
+# order in which one label is picked when several apply (one defect, one id).
+_STRUCT = ('tuple-elements', 'permuted-dict-keys', 'same-qualname-classes',
+           'typed-missing-different-specs')
+_LEAF_PRIORITY = ('primitive-like', 'set', 'callable', 'ref', 'custom',
+                  'unordered-opaque', 'ordered-opaque')
+_NUM = (bool, int, float)
+
+
+def _typed_missing(v):
+  return isinstance(v, pg.typing.MissingValue)
+
+
+def _aligned(a, b, out, depth=0):
+  """Walks a and b at aligned positions; fills out['struct'] (structural
+  classes) and out['leaf'] (label of the first aligned pair with a special leaf).
+
+    tuple-elements: two tuples whose elements are not all numbers (the pool's
+      other tuples hold mutually comparable numbers only);
+    permuted-dict-keys: two dicts with the same keys in a different order;
+    typed-missing-different-specs: two typed missing values of different specs.
+  """
   ka, kb = _kind(a), _kind(b)
-  sp = sorted({k for k in (ka, kb) if k in SPECIAL_KINDS})
-  if sp:
-    return '+'.join(sp) + '-leaves'
+  if ka in SPECIAL_KINDS or kb in SPECIAL_KINDS:
+    if out['leaf'] is None:
+      out['leaf'] = '+'.join(sorted({k for k in (ka, kb) if k in SPECIAL_KINDS})) + '-leaves'
+    return
+  if ka == kb == 'missing':
+    if _typed_missing(a) and _typed_missing(b) and str(a.value_spec) != str(b.value_spec):
+      out['struct'].add('typed-missing-different-specs')
+    return
   if depth >= 8:
-    return None
-  if ka in ('list', 'tuple') and kb in ('list', 'tuple') or (
-      ka == kb == 'dict') or (ka not in ('list', 'tuple', 'dict') and type(a) is type(b)):
-    ca, cb = _children(a), _children(b)
-    if ca and cb:
-      for k in ca:
-        if k in cb:
-          lab = _leaf_label(ca[k], cb[k], depth + 1)
-          if lab:
-            return lab
-  return None
+    return
+  if ka in ('list', 'tuple') and kb in ('list', 'tuple'):
+    if ka == kb == 'tuple' and not all(isinstance(x, _NUM) for x in a + b):
+      out['struct'].add('tuple-elements')
+    for x, y in zip(a, b):         # lt looks at the common prefix, whatever the lengths.
+      _aligned(x, y, out, depth + 1)
+  elif ka == kb == 'dict':
+    la, lb = list(a.keys()), list(b.keys())
+    if la != lb and set(la) == set(lb):
+      out['struct'].add('permuted-dict-keys')
+    ga = a.sym_getattr if isinstance(a, pg.Dict) else a.__getitem__
+    gb = b.sym_getattr if isinstance(b, pg.Dict) else b.__getitem__
+    sb = set(lb)
+    for k in la:
+      if k in sb:
+        _aligned(ga(k), gb(k), out, depth + 1)
+  elif isinstance(a, pg.Object) and type(a) is type(b):
+    for k in a.sym_keys():
+      if b.sym_hasattr(k):
+        _aligned(a.sym_getattr(k), b.sym_getattr(k), out, depth + 1)
 
 
 def _is_special(lab):
-  return ('permuted-dict-keys' in lab or 'same-qualname-classes' in lab
-          or lab.endswith('-leaves'))
+  return lab in _STRUCT or lab.endswith('-leaves')
 
 
-def _has_perm(a, b):
-  """True if a and b hold, at aligned positions, dicts with same keys in a different order."""
-  if isinstance(a, dict) and isinstance(b, dict):
-    ka, kb = list(a.keys()), list(b.keys())
-    if set(ka) == set(kb):
-      if ka != kb:
-        return True
-      ga = a.sym_getattr if isinstance(a, pg.Dict) else a.__getitem__
-      gb = b.sym_getattr if isinstance(b, pg.Dict) else b.__getitem__
-      return any(_has_perm(ga(k), gb(k)) for k in ka)
-    return False
-  if isinstance(a, (list, tuple)) and isinstance(b, (list, tuple)):
-    # lt looks at the common prefix, whatever the lengths.
-    return any(_has_perm(x, y) for x, y in zip(a, b))
-  if isinstance(a, pg.Object) and isinstance(b, pg.Object) and type(a) is type(b):
-    return any(_has_perm(a.sym_getattr(k), b.sym_getattr(k)) for k in a.sym_keys()
-               if b.sym_hasattr(k))
-  return False
+def _pick(labels):
+  """The one special label of a set of pair labels (by the fixed priority), or None."""
+  labels = set(labels)
+  for st in _STRUCT:
+    if st in labels:
+      return st
+  kinds = set()
+  for l in labels:
+    if l.endswith('-leaves'):
+      kinds |= set(l[:-len('-leaves')].split('+'))
+  for k in _LEAF_PRIORITY:
+    if k in kinds:
+      return k + '-leaves'
+  return None
 
 
 def _pair_label(a, b):
-  if _has_perm(a, b):
-    return 'permuted-dict-keys'
+  out = {'struct': set(), 'leaf': None}
+  _aligned(a, b, out)
   if (isinstance(a, pg.Object) and isinstance(b, pg.Object)
       and type(a) is not type(b)
       and type(a).__qualname__ == type(b).__qualname__):
-    return 'same-qualname-classes'
-  lab = _leaf_label(a, b)
-  if lab:
-    return lab
+    out['struct'].add('same-qualname-classes')
+  for st in _STRUCT:
+    if st in out['struct']:
+      return st
+  if out['leaf']:
+    return out['leaf']
   return '~'.join(sorted([_kind(a), _kind(b)]))
 
 
 def _multi_label(vals):
-  labs = set()
-  for a, b in itertools.combinations(vals, 2):
-    lab = _pair_label(a, b)
-    if _is_special(lab):
-      labs.add(lab)
-  if labs:
-    return '+'.join(sorted(labs))
-  return '~'.join(sorted(set(_kind(v) for v in vals)))
+  lab = _pick(_pair_label(a, b) for a, b in itertools.combinations(vals, 2))
+  return lab or '~'.join(sorted(set(_kind(v) for v in vals)))
 
 
 def _plain_unhashable(v):
@@ -390,6 +514,38 @@ def _plain_unhashable(v):
   if isinstance(v, tuple):
     return any(_plain_unhashable(x) for x in v)
   return False
+
+
+def _holds_unhashable(v, depth=0):
+  """True if v holds (anywhere below symbolic containers, objects and plain
+  tuples) a plain list / dict / set or a leaf that Python's hash() refuses:
+  such a value has no hash.  Only the leaf's own hash() is probed."""
+  if isinstance(v, pg.Ref) or depth > 8:
+    return False               # a reference does not hash its target.
+  if isinstance(v, pg.Symbolic):
+    if isinstance(v, (pg.Object, pg.Dict, pg.List)):
+      return any(_holds_unhashable(x, depth + 1) for x in v.sym_values())
+    return False
+  if isinstance(v, (list, dict, set)):
+    return True
+  if isinstance(v, (tuple, frozenset)):
+    return any(_holds_unhashable(x, depth + 1) for x in v)
+  if isinstance(v, type(pg.MISSING_VALUE)):
+    return False
+  try:
+    hash(v)
+    return False
+  except TypeError:
+    return True
+
+
+def _outcome(r):
+  """('ok', value) or ('exc', exception type name) of a _call result."""
+  return r if r[0] == 'ok' else ('exc', r[1].split(':')[0])
+
+
+_O = ('def _o(f, *a):\n  try: return ("ok", f(*a))\n'
+      '  except Exception as e: return ("exc", type(e).__name__)\n')
 
 
 def _opted_in(v):
@@ -510,6 +666,11 @@ def drv_laws(tier, seed):
   L = [[None] * n for _ in range(n)]     # lt(X[i], Y[j])
   R = [[None] * n for _ in range(n)]     # lt(Y[j], X[i])
   H = [None] * n                         # pg.hash(X[i]) / 'skip' / None if raised
+  HY = [None] * n                        # pg.hash(Y[j]) / None if raised or skipped
+  OH = [None] * n                        # hash(X[i]) of symbolic values / None
+  OHY = [None] * n                       # hash(Y[j]) of symbolic values / None
+  PL = [[None] * n for _ in range(n)]    # pair label of (X[i], Y[j])
+  j_of = list(range(n))
 
   # ---- unary: reflexivity, hash defined and stable, operators agree.
   for i, e in enumerate(exprs):
@@ -536,23 +697,43 @@ def drv_laws(tier, seed):
     else:
       rec.case(f'gt.irreflexive-same-object/{k}', e, r == ('ok', False), f'pg.gt(a, a) -> {r}',
                _w(e, 'a', 'assert pg.gt(a, a) is False'))
+    # -- hashing.  A plain list / dict / set has no hash at all (Python); a
+    # value that holds a Python-unhashable leaf has none either: pg.hash may
+    # refuse it (TypeError) -- if it answers, the answer obeys the laws.
     if _plain_unhashable(x):
       H[i] = 'skip'
     else:
-      h1, h2, h3 = _call(pg.hash, x), _call(pg.hash, x), _call(pg.hash, y)
-      ok = h1[0] == 'ok' and isinstance(h1[1], int) and h1 == h2
-      rec.case(f'hash.defined-and-stable/{k}', e, ok, f'pg.hash(a) -> {h1}, again {h2}',
-               _w(e, 'a', 'assert isinstance(pg.hash(a), int) and pg.hash(a) == pg.hash(a)'))
+      no_hash = _holds_unhashable(x)
+      ksfx = k + ('+unhashable-leaf' if no_hash else '')
+      h1, h2 = _call(pg.hash, x), _call(pg.hash, x)
+      if no_hash:
+        ok = (_outcome(h1) == _outcome(h2) and
+              (isinstance(h1[1], int) if h1[0] == 'ok' else h1[1].startswith('TypeError')))
+        rec.case(f'hash.stable-or-refused/{ksfx}', e, ok, f'pg.hash(a) -> {h1}, again {h2}',
+                 _fit(_pre(e) + _O + f'a = {e}\nr = _o(pg.hash, a)\n'
+                      'assert r == _o(pg.hash, a) and (r == ("exc", "TypeError") or isinstance(r[1], int))', e))
+      else:
+        ok = h1[0] == 'ok' and isinstance(h1[1], int) and h1 == h2
+        rec.case(f'hash.defined-and-stable/{k}', e, ok, f'pg.hash(a) -> {h1}, again {h2}',
+                 _w(e, 'a', 'assert isinstance(pg.hash(a), int) and pg.hash(a) == pg.hash(a)'))
       H[i] = h1[1] if h1[0] == 'ok' else None
-      del h3
-    if isinstance(x, pg.Symbolic) and not _plain_unhashable(x):
-      r = _call(lambda: x.sym_hash() == pg.hash(x))
-      rec.case(f'sym_hash.agrees-with-pg.hash/{k}', e, r == ('ok', True), f'{r}',
-               _w(e, 'a', 'assert a.sym_hash() == pg.hash(a)'))
-    if _opted_in(x):
-      r = _call(lambda: hash(x) == pg.hash(x))
-      rec.case('operator.hash-agrees/obj', e, r == ('ok', True), f'hash(a) == pg.hash(a) -> {r}',
-               _w(e, 'a', 'assert hash(a) == pg.hash(a)'))
+      hy = _call(pg.hash, y)
+      HY[j_of[i]] = hy[1] if hy[0] == 'ok' else None
+      if isinstance(x, pg.Symbolic):
+        r = _call(x.sym_hash)
+        rec.case(f'sym_hash.agrees-with-pg.hash/{ksfx}', e, _outcome(r) == _outcome(h1),
+                 f'a.sym_hash() -> {r}, pg.hash(a) -> {h1}',
+                 _fit(_pre(e) + _O + f'a = {e}\nassert _o(a.sym_hash) == _o(pg.hash, a)', e))
+        # hash() of every symbolic value (for the pair law on == below).
+        r = _call(hash, x)
+        OH[i] = r[1] if r[0] == 'ok' else None
+        ry = _call(hash, y)
+        OHY[i] = ry[1] if ry[0] == 'ok' else None
+        if _opted_in(x):
+          # hash() agrees with the symbolic hash: the same answer, or both refuse.
+          rec.case(f'operator.hash-agrees/{ksfx}', e, _outcome(r) == _outcome(h1),
+                   f'hash(a) -> {r}, pg.hash(a) -> {h1}',
+                   _fit(_pre(e) + _O + f'a = {e}\nassert _o(hash, a) == _o(pg.hash, a)', e))
 
   # ---- pairs.
   for i in range(n):
@@ -561,7 +742,7 @@ def drv_laws(tier, seed):
       y = ys[j]
       ea, eb = exprs[i], exprs[j]
       key = (ea, eb)
-      lab = _pair_label(x, y)
+      lab = PL[i][j] = _pair_label(x, y)
       req = _call(pg.eq, x, y)
       rne = _call(pg.ne, x, y)
       rlt = _call(pg.lt, x, y)
@@ -596,12 +777,19 @@ def drv_laws(tier, seed):
         rec.case(f'lt.trichotomy/{lab}', key, cnt == 1,
                  f'lt={rlt[1]} eq={req[1]} gt={rrl[1]} (exactly one must hold)',
                  _w(ea, eb, 'assert [pg.lt(a, b), pg.eq(a, b), pg.lt(b, a)].count(True) == 1'))
-      # equal => equal hash.
-      if req == ('ok', True) and H[i] not in ('skip', None) and not _plain_unhashable(y):
-        hy = _call(pg.hash, y)
-        rec.case(f'hash.equal-for-equal-values/{lab}', key, hy == ('ok', H[i]),
-                 f'pg.eq(a, b) but pg.hash(a)={H[i]} pg.hash(b)={hy}',
+      # equal => equal hash (wherever both values have one).
+      if req == ('ok', True) and H[i] not in ('skip', None) and HY[j] is not None:
+        rec.case(f'hash.equal-for-equal-values/{lab}', key, HY[j] == H[i],
+                 f'pg.eq(a, b) but pg.hash(a)={H[i]} pg.hash(b)={HY[j]}',
                  _w(ea, eb, 'assert pg.eq(a, b) and pg.hash(a) == pg.hash(b)'))
+      # the same for the operators (Python: a == b implies hash(a) == hash(b)),
+      # for every symbolic value whose hash() answers.
+      if OH[i] is not None and OHY[j] is not None:
+        r0 = _call(lambda: x == y)
+        if r0[0] == 'ok' and r0[1] is True:
+          rec.case(f'operator.hash-equal-for-==/{lab}', key, OH[i] == OHY[j],
+                   f'a == b but hash(a)={OH[i]} hash(b)={OHY[j]}',
+                   _w(ea, eb, 'assert a == b and hash(a) == hash(b)'))
       # sym_* methods agree with the functions.
       if isinstance(x, pg.Symbolic):
         for nm, ref in (('sym_eq', req), ('sym_ne', rne), ('sym_lt', rlt), ('sym_gt', rgt)):
@@ -623,8 +811,7 @@ def drv_laws(tier, seed):
                    _w(ea, eb, 'assert (b == a) == pg.eq(a, b)'))
 
   # ---- triples through the tables (first witness per case id is re-checked natively).
-  perm = [[_pair_label(xs[i], ys[j]) for j in range(n)] for i in range(n)]
-  special = ('permuted-dict-keys', 'same-qualname-classes')
+  perm = PL        # pair labels, filled by the pair loop.
 
   # Triple laws are checked where the pair laws hold: a triple that contains a
   # pair already reported (raise / trichotomy violation) adds nothing new.
@@ -636,21 +823,12 @@ def drv_laws(tier, seed):
 
   def tid(law, i, j, k):
     """One id per law and input class; all order laws over triples that involve
-    an order-permuted dict pair share one id (one defect)."""
-    lab = tlabel(i, j, k)
-    if set(lab.split('+')) & set(special) or lab.endswith('-leaves'):
+    a pair of a special class (order-permuted dicts, a special leaf kind, ...)
+    share one id per class (one defect); of several classes one is picked."""
+    lab = _pick((perm[i][j], perm[j][k], perm[i][k]))
+    if lab:
       return f'triple-laws/{lab}'
-    return f'{law}/{lab}'
-
-  def tlabel(i, j, k):
-    three = (perm[i][j], perm[j][k], perm[i][k])
-    labs = set(three) & set(special)
-    if labs:
-      return '+'.join(sorted(labs))
-    leaves = sorted({l for l in three if l.endswith('-leaves')})
-    if leaves:
-      return '+'.join(leaves)
-    return '~'.join(sorted({_kind(xs[i]), _kind(xs[j]), _kind(xs[k])}))
+    return f'{law}/' + '~'.join(sorted({_kind(xs[i]), _kind(xs[j]), _kind(xs[k])}))
 
   for i in range(n):
     Ei, Li = E[i], L[i]
@@ -777,9 +955,8 @@ def drv_sort(tier, seed):
     key = tuple(e for e, _ in s1)
     lab = _multi_label([v for _, v in sample])
     if fam:
-      # the ordinary values of the sample may hold a permuted-dict pair.
-      core = [l for l in lab.split('+') if l in ('permuted-dict-keys', 'same-qualname-classes')]
-      lab = '+'.join(core) if core else f'{fam}-leaves'
+      # the ordinary values of the sample may hold a pair of a structural class.
+      lab = lab if lab in _STRUCT else f'{fam}-leaves'
     elif not _is_special(lab):
       lab = 'general'      # one id per defect; the pair/triple tables localise by kind.
     rec.case(f'sort.never-raises/{lab}', key, True)
